@@ -101,12 +101,17 @@ fn resource_risk(bit: Option<&ScriptBit>, stack: &[Vec<u8>]) -> bool {
     }
     let top = stack.last();
     let second = if stack.len() >= 2 { stack.get(stack.len() - 2) } else { None };
+    // with the per-step requests capped below and the live stacks capped here, no legitimate step comes near the 1 GiB
+    // allocator budget: whatever still exhausts it is runaway allocation and is judged (abort:alloc is a violation)
+    if stack.iter().map(|s| s.len() + 32).sum::<usize>() > 48 << 20 {
+        return true;
+    }
     match bit {
         Some(ScriptBit::OpCode(OpCodes::OP_LSHIFT)) => match (top, second) {
-            (Some(a), Some(b)) => a.iter().any(|x| *x != 0) && small_num(b).map(|n| n > 1 << 16).unwrap_or(false),
+            (Some(a), Some(b)) => a.iter().any(|x| *x != 0) && small_num(b).map(|n| n > 1 << 25).unwrap_or(false),
             _ => false,
         },
-        Some(ScriptBit::OpCode(OpCodes::OP_NUM2BIN)) => top.and_then(|t| small_num(t)).map(|n| n > 1 << 20).unwrap_or(false),
+        Some(ScriptBit::OpCode(OpCodes::OP_NUM2BIN)) => top.and_then(|t| small_num(t)).map(|n| n > 1 << 22).unwrap_or(false),
         Some(ScriptBit::OpCode(OpCodes::OP_CAT)) | Some(ScriptBit::OpCode(OpCodes::OP_MUL)) => match (top, second) {
             (Some(a), Some(b)) => a.len() + b.len() > 1 << 20,
             _ => false,
@@ -550,7 +555,7 @@ impl Scenario for InterpDriver {
             quick_runs: 110_000,
             thorough_runs: 4000000,
             rlimit_as: 6 << 30,
-            alloc_abort_is_violation: false,
+            alloc_abort_is_violation: true,
         }
     }
 
